@@ -239,6 +239,90 @@ fn storm(run: &Run, eng: &Eng, w: &World, mode: Mode, threads: usize, rounds: us
     }
 }
 
+/// Filters that differ only in the operator or in the field, with long
+/// patterns: whatever is shared between compiled filters must not leak from one
+/// to the other.
+const TWINS: &[&str] = &[
+    r#"str_m wildcard "*compatible; CRAWLER/12.5*""#,
+    r#"str_m strict wildcard "*compatible; CRAWLER/12.5*""#,
+    r#"str_m strict wildcard "MOZILLA/5.0 (X11; Linux x86_64)*""#,
+    r#"str_m wildcard "MOZILLA/5.0 (X11; Linux x86_64)*""#,
+    r#"http.host wildcard "*compatible; CRAWLER/12.5*""#,
+    r#"str_m matches "compatible; crawler/[0-9]+\.[0-9]+ ""#,
+    r#"http.host matches "compatible; crawler/[0-9]+\.[0-9]+ ""#,
+    r#"str_m matches "COMPATIBLE; CRAWLER/[0-9]+\.[0-9]+ ""#,
+    r#"str_m contains "compatible; crawler/12.5 (+http""#,
+    r#"http.host contains "compatible; crawler/12.5 (+http""#,
+    r#"str_m contains "COMPATIBLE; crawler/12.5 (+http""#,
+    r#"num_m in {1 5..10 100..2000}"#,
+    r#"num_m in {1 5..10 100..2001}"#,
+    r#"not num_m in {1 5..10 100..2000}"#,
+];
+
+/// "Recompilations of the same filter on the same context always agree": the
+/// results of a filter compiled while nothing else is alive, while all the
+/// others are alive (compiled before it, or after it), and once more alone.
+fn company_family(run: &Run, eng: &Eng) {
+    let texts: Vec<&str> = FILTERS.iter().chain(TWINS.iter()).copied().collect();
+    let data = contexts(eng, run.opts.seed, 16);
+    let ctxs: Vec<ExecutionContext<'static>> = data.iter().map(|(v, l)| eng.ctx(v, l)).collect();
+    let exec = |f: &Filter| -> Vec<Option<bool>> { ctxs.iter().map(|c| f.execute(c).ok()).collect() };
+    let compile = |t: &str| -> Result<Filter, String> { eng.scheme.parse(t).map(|a| a.compile()).map_err(|e| e.to_string()) };
+    let mut alone: Vec<Vec<Option<bool>>> = Vec::new();
+    for t in &texts {
+        match compile(t) {
+            Ok(f) => alone.push(exec(&f)),
+            Err(e) => {
+                run.inconclusive(format!("C18 filter does not parse: {} ({})", t, e));
+                return;
+            }
+        }
+    }
+    let mut check = |label: &str, order: Vec<usize>| {
+        let mut alive: Vec<(usize, Filter)> = Vec::new();
+        for k in order {
+            alive.push((k, compile(texts[k]).unwrap()));
+        }
+        for (k, f) in &alive {
+            let got = exec(f);
+            run.evaluations.fetch_add(ctxs.len() as u64, Ordering::Relaxed);
+            if got != alone[*k] {
+                let ci = got.iter().zip(&alone[*k]).position(|(a, b)| a != b).unwrap_or(0);
+                run.violation(
+                    &format!("C18/result-depends-on-other-filters/{}/{}", label, texts[*k].chars().take(40).collect::<String>()),
+                    "recompilation-agrees",
+                    "company",
+                    *k as u64,
+                    json!({"filter": texts[*k], "situation": label, "context": ci,
+                           "compiled_alone": alone[*k][ci], "compiled_in_company": got[ci]}),
+                );
+            }
+        }
+        drop(alive);
+    };
+    let n = texts.len();
+    check("all-alive-compiled-in-order", (0..n).collect());
+    check("all-alive-compiled-in-reverse-order", (0..n).rev().collect());
+    check("all-alive-twins-first", (FILTERS.len()..n).chain(0..FILTERS.len()).collect());
+    // and alone again, after everything else has been dropped
+    for (k, t) in texts.iter().enumerate() {
+        let f = compile(t).unwrap();
+        if exec(&f) != alone[k] {
+            run.violation(
+                &format!("C18/result-depends-on-other-filters/alone-again/{}", t.chars().take(40).collect::<String>()),
+                "recompilation-agrees",
+                "company",
+                k as u64,
+                json!({"filter": t, "situation": "compiled alone a second time, after the others were dropped"}),
+            );
+        }
+        run.distinct(hash_str(&format!("company|{}", k)));
+    }
+    let differing = alone.iter().filter(|r| r.iter().any(|x| *x == Some(true)) && r.iter().any(|x| *x == Some(false))).count();
+    run.note("company_filters", json!({"filters": n, "with_both_outcomes_over_the_contexts": differing}));
+    let _ = (take_call_log(), take_list_log(), take_monitor_errors());
+}
+
 /// Every round a new set of filters is compiled (by thread 0, the others wait
 /// at a barrier) and then executed for the very first time by all threads at
 /// once, filter by filter; the expected results are those of a different copy
@@ -374,6 +458,11 @@ pub fn run(run: &Run) {
         if run.is_child() {
             return;
         }
+    }
+
+    // ---- results are independent of which other filters are alive
+    if run.opts.wants("company") {
+        company_family(run, &eng);
     }
 
     // ---- barrier-released storms
